@@ -273,8 +273,12 @@ def compFunc (cx0 : List (String × Nat × Nat)) (d : FuncDecl) (label nl : Nat)
   let tail : Code := if lastIsRet d.body then [] else [.ins .ret]
   ([.lbl label, initSlotItem st.cnt d.params.length] ++ body ++ tail, st.nl)
 
-def funcTable (p : Prog) : List (String × Nat × Nat) :=
-  (List.range p.length).zip p |>.map (fun (i, d) => (d.name, i, if d.hasResult then 1 else 0))
+def tableFrom : List FuncDecl → Nat → List (String × Nat × Nat)
+  | [], _ => []
+  | d :: r, i => (d.name, i, if d.hasResult then 1 else 0) :: tableFrom r (i + 1)
+
+/-- resolveFuncDecls: every function gets its label (its index in source order) before any code is emitted. -/
+def funcTable (p : Prog) : List (String × Nat × Nat) := tableFrom p 0
 
 def compFuncs (tbl : List (String × Nat × Nat)) : List FuncDecl → Nat → Nat → Code
   | [], _, _ => []
@@ -388,6 +392,45 @@ def debugOffset (c : Code) (n i : Nat) : Option Nat :=
   | some off =>
     let next := if i + 1 < n then (labelOffset c (i + 1)).getD 0 else (assemble c).length
     if next == off + 1 then none else some off
+
+/-- final byte offset of item `i` of `c` (the script length for an index past the end). -/
+def fposAt (c : Code) (i : Nat) : Nat :=
+  let lpos := longPositions c 0
+  let forms := (c.zip lpos).map (fun (it, ip) => formOf c lpos it ip)
+  let fpos := finalPositions (c.zip forms) 0
+  match fpos[i]? with
+  | some p => p
+  | none => (assemble c).length
+
+/-- item `i` of `c` is where and what the byte machine will see: an item without bytes (mark, removed INITSLOT,
+    removed `JMPL +5`) does not move the offset (and the removed jump's target has the same offset); any other
+    decodes at its offset to the same instruction with the relative offset of its target. -/
+def itemOK (c : Code) (i : Nat) : Bool :=
+  let p := fposAt c i
+  let q := fposAt c (i + 1)
+  match c[i]? with
+  | none => true
+  | some (.lbl _) => q == p
+  | some (.ins op) =>
+    if q == p then
+      match op with
+      | .nop => true
+      | .jmp l => match Asm.findLabel c l with
+        | some j => fposAt c j == p
+        | none => false
+      | _ => false
+    else
+      p < q && q ≤ (assemble c).length &&
+      match Op.target? op with
+      | none => Byte.decode ((assemble c).drop p) == some (Op.retarget (0 : Int) op, q - p)
+      | some l => match Asm.findLabel c l with
+        | some j => Byte.decode ((assemble c).drop p) == some (Op.retarget ((fposAt c j : Int) - (p : Int)) op, q - p)
+                    && fposAt c j ≤ (assemble c).length
+        | none => false
+
+/-- the decidable layout condition under which the byte machine simulates the assembly machine
+    (Proofs/CompileAsm.lean); the driver evaluates it for every program it compiles. -/
+def layoutOK (c : Code) : Bool := (List.range c.length).all (itemOK c)
 
 /-- compile : Prog → Script. -/
 def compile (p : Prog) : Bytes := assemble (compProg p)
